@@ -589,6 +589,9 @@ impl<'a> Model<'a> {
         if column_count <= 0 {
             return Err("Cannot add a negative number of cells :)".to_string());
         }
+        if !(1..=LAST_COLUMN).contains(&column) {
+            return Err(format!("Column number '{column}' is not valid."));
+        }
         if !self.can_insert_columns(sheet, column, column_count)? {
             return Err(
                 "Cannot insert columns because that would break an array formula".to_string(),
@@ -933,6 +936,9 @@ impl<'a> Model<'a> {
     pub fn insert_rows(&mut self, sheet: u32, row: i32, row_count: i32) -> Result<(), String> {
         if row_count <= 0 {
             return Err("Cannot add a negative number of cells :)".to_string());
+        }
+        if !(1..=LAST_ROW).contains(&row) {
+            return Err(format!("Row number '{row}' is not valid."));
         }
         if !self.can_insert_rows(sheet, row, row_count)? {
             return Err("Cannot insert rows because that would break an array formula".to_string());
